@@ -69,8 +69,13 @@ class Interp(object):
     # ------------------------------------------------------------------ helpers
     def cache_name(self, t, selfnames):
         if isinstance(t, ast.Subscript) and isinstance(t.value, ast.Attribute) and t.value.attr == '_cache' \
-                and isinstance(t.value.value, ast.Name) and t.value.value.id in selfnames and isinstance(t.slice, ast.Constant):
-            return "_cache['%s']" % t.slice.value
+                and isinstance(t.value.value, ast.Name) and t.value.value.id in selfnames:
+            if isinstance(t.slice, ast.Constant):
+                return "_cache['%s']" % t.slice.value
+            # self._cache[key] with key a propagated constant (the variable of a loop over a constant tuple of cache keys)
+            cur = getattr(self, '_env', None)
+            if isinstance(t.slice, ast.Name) and cur is not None and isinstance(cur.get('__c__', {}).get(t.slice.id), str):
+                return "_cache['%s']" % cur['__c__'][t.slice.id]
         if isinstance(t, ast.Attribute) and isinstance(t.value, ast.Name) and t.value.id in selfnames and t.attr in CACHES:
             return t.attr
         return None
@@ -130,6 +135,81 @@ class Interp(object):
             return env['__c__'][v.id]
         return None
 
+    def const_seq(self, e, env):
+        """the constants of a literal tuple / list, or of a class-level tuple / list read as self.X / cls.X / type(self).X / ClassName.X
+        (resolved through the MRO of the concrete class under analysis); None when not constant"""
+        if isinstance(e, (ast.Tuple, ast.List)) and all(isinstance(x, ast.Constant) for x in e.elts):
+            return [x.value for x in e.elts]
+        if isinstance(e, ast.Attribute):
+            b = e.value
+            on_self = isinstance(b, ast.Name) and (b.id in env['__self__'] or b.id == 'cls')
+            on_type = isinstance(b, ast.Call) and isinstance(b.func, ast.Name) and b.func.id == 'type' and len(b.args) == 1 and isinstance(b.args[0], ast.Name) and b.args[0].id in env['__self__']
+            on_cls = isinstance(b, ast.Attribute) and b.attr == '__class__' and isinstance(b.value, ast.Name) and b.value.id in env['__self__']
+            if on_self or on_type or on_cls:
+                # an instance attribute of the same name would shadow the class attribute: only when no method of the hierarchy assigns it
+                for k in self.m.mro(self.cls):
+                    ci = self.m.classes.get(k)
+                    if ci is None:
+                        continue
+                    for fi_ in list(ci.methods.values()) + list(ci.setters.values()):
+                        for x in ast.walk(fi_.node):
+                            if isinstance(x, ast.Attribute) and x.attr == e.attr and isinstance(x.ctx, ast.Store):
+                                return None
+                return self.class_const(self.cls, e.attr)
+        return None
+
+    def class_const(self, cls, name, depth=0):
+        """the constant tuple a class-level assignment binds `name` to (through the MRO of cls): a display of constants, another class's
+        constant (ClassName.X) or a concatenation of those"""
+        if depth > 4:
+            return None
+
+        def val(v, mod):
+            if isinstance(v, (ast.Tuple, ast.List)) and all(isinstance(x, ast.Constant) for x in v.elts):
+                return [x.value for x in v.elts]
+            if isinstance(v, ast.BinOp) and isinstance(v.op, ast.Add):
+                a, b = val(v.left, mod), val(v.right, mod)
+                return a + b if a is not None and b is not None else None
+            if isinstance(v, ast.Attribute) and isinstance(v.value, ast.Name):
+                ck = (mod, v.value.id) if (mod, v.value.id) in self.m.classes else next((k_ for k_ in self.m.classes if k_[1] == v.value.id), None)
+                return self.class_const(ck, v.attr, depth + 1) if ck is not None else None
+            return None
+        for k in self.m.mro(cls):
+            ci = self.m.classes.get(k)
+            if ci is None:
+                continue
+            for stc in ci.node.body:
+                if isinstance(stc, ast.Assign) and any(isinstance(t_, ast.Name) and t_.id == name for t_ in stc.targets):
+                    return val(stc.value, k[0])
+        return None
+
+    def cache_dict_update(self, arg, st, env, here, reads):
+        """self._cache.update(<dict>) / self._cache = <dict>: a dictionary display or comprehension with constant keys stores every entry"""
+        pairs = None
+        if isinstance(arg, ast.Dict) and all(isinstance(k, ast.Constant) for k in arg.keys):
+            pairs = [(k.value, v, None) for k, v in zip(arg.keys, arg.values)]
+        elif isinstance(arg, ast.DictComp) and len(arg.generators) == 1 and not arg.generators[0].ifs and isinstance(arg.generators[0].target, ast.Name) \
+                and isinstance(arg.key, ast.Name) and arg.key.id == arg.generators[0].target.id:
+            seq = self.const_seq(arg.generators[0].iter, env)
+            if seq is not None:
+                pairs = [(k, arg.value, arg.key.id) for k in seq]
+        elif isinstance(arg, ast.Call) and isinstance(arg.func, ast.Attribute) and arg.func.attr == 'fromkeys' and isinstance(arg.func.value, ast.Name) and arg.func.value.id == 'dict' \
+                and arg.args:
+            seq = self.const_seq(arg.args[0], env)
+            if seq is not None and len(arg.args) == 1:
+                pairs = [(k, ast.Constant(value=None), None) for k in seq]
+        if pairs is None:
+            return False
+        for k, v, var in pairs:
+            cn = "_cache['%s']" % k
+            if cn not in st:
+                continue
+            if is_empty_init(v):
+                st[cn] = E
+            else:
+                self.fill(st, cn, reads)
+        return True
+
     def call(self, e, st, env, here, reads):
         sn = env['__self__']
         for a in e.args:
@@ -163,6 +243,10 @@ class Interp(object):
                 elif f.attr == 'tessellate':
                     self.fill(st, 'TESS', reads)
                 return
+            # self._cache.update({...})
+            if f.attr == 'update' and isinstance(recv, ast.Attribute) and recv.attr == '_cache' and isinstance(recv.value, ast.Name) and recv.value.id in sn and len(e.args) == 1:
+                if self.cache_dict_update(e.args[0], st, env, here, reads):
+                    return
             # mutating list methods on defining fields / caches
             base = recv
             while isinstance(base, ast.Subscript):
@@ -218,7 +302,9 @@ class Interp(object):
             if p in kw and kw[p] is not None:
                 sub['__c__'][p] = kw[p]
         here = (fi.mod, fi.cls) if fi.cls else None
+        prev_env = getattr(self, '_env', None)
         out = self.block(fn.body, st, sub, here)
+        self._env = prev_env
         res = None
         for r in sub['__rets__'] + ([out] if out is not None else []):
             res = dict(r) if res is None else join(res, r)
@@ -298,6 +384,7 @@ class Interp(object):
 
     def stmt(self, n, st, env, here):
         sn = env['__self__']
+        self._env = env
         if isinstance(n, ast.Return):
             self.expr(n.value, st, env, here)
             env['__rets__'].append(dict(st))
@@ -380,6 +467,16 @@ class Interp(object):
             for x in outs[1:]:
                 o = join(o, x)
             st.update(o)
+            return
+        if isinstance(n, ast.For) and isinstance(n.target, ast.Name) and not n.orelse and self.const_seq(n.iter, env) is not None:
+            # a loop over a constant tuple (of cache keys): unrolled with the loop variable a propagated constant
+            for cval in self.const_seq(n.iter, env):
+                env['__c__'][n.target.id] = cval
+                self._env = env
+                if self.block(n.body, st, env, here) is None:
+                    env['__c__'].pop(n.target.id, None)
+                    return 'stop'
+            env['__c__'].pop(n.target.id, None)
             return
         if isinstance(n, (ast.For, ast.While)):
             if isinstance(n, ast.For):
